@@ -447,9 +447,6 @@ func buildGroups(r *core.Run, alpha []Token) []group {
 		if want("T1") {
 			oneTok("T1", alpha, lists2, progs5)
 		}
-		if want("T1b") {
-			oneTok("T1b", canon, lists3[len(lists2):], progs5)
-		}
 		listsT2 := [][]string{{}, {"g1"}, {"g2", "missing"}}
 		progsT2 := []string{progDot, progPartial, progBad}
 		two := func(section string, as, bs []Token, skipCanon bool) {
@@ -471,6 +468,9 @@ func buildGroups(r *core.Run, alpha []Token) []group {
 		}
 		if want("T2c") {
 			two("T2c", canon, canon, false)
+		}
+		if want("T1b") {
+			oneTok("T1b", canon, lists3[len(lists2):], progs5)
 		}
 		if want("T2") {
 			two("T2", alpha, alpha, true)
@@ -514,6 +514,19 @@ func run(r *core.Run) {
 	sectionDone := map[string]int{}
 	for _, g := range gs {
 		sectionTotal[g.section]++
+	}
+	r.Extra("groups_total_by_section", sectionTotal)
+	if os.Getenv("C17_DRY") != "" {
+		// size of the bound without executing anything
+		if r.ShardIdx == 0 {
+			n := map[string]int{}
+			for _, g := range gs {
+				g.gen(func(Case) { n[g.section]++ })
+			}
+			fmt.Fprintf(os.Stderr, "C17 dry: groups=%v cases=%v tokens=%d\n", sectionTotal, n, len(alpha))
+		}
+		r.NotExhaustive("dry run")
+		return
 	}
 	expired := false
 	var caseIdx int64
@@ -563,9 +576,8 @@ func run(r *core.Run) {
 		sort.Strings(secs)
 		for _, s := range secs {
 			r.Count("groups_done:"+s, int64(sectionDone[s]))
-			r.Count("groups_total_this_shard_incl_skipped:"+s, 0)
 		}
-		r.NotExhaustive("deadline reached before all groups were enumerated (sections are enumerated in the order S1,S2,T1,T1b,T2c,T2; see groups_done counters)")
+		r.NotExhaustive("deadline reached before all groups were enumerated (sections are enumerated in the order S1,S2,T1,T2c,T1b,T2; see groups_done counters)")
 	} else {
 		for s := range sectionTotal {
 			r.Section(s)
